@@ -139,6 +139,19 @@ CLAIMED = {
         "no general theorem that IEEE addition is exact on dyadic values. Known finding C13-float-exact-fill (matcher: exact "
         "total + 1/v == length and the implementation refused); an accepted over-fill is still a violation.",
    design="§4 C13"),
+ "C11": dict(
+   text="Note level: transpose_shift (transposition commutes with moving a note by whole octaves: any octave, proved "
+        "structurally) + transpose_table (kernel: 7 letters x -4..4 accidentals x 35 shorthands x both directions: pitch number "
+        "moves by exactly the size, right letter, dynamics kept) give transpose_spec for every octave; updown_table (up then "
+        "down restores name and octave for up to three accidentals) with updown_limit pinning where it stops. "
+        "augment_diminish_id for every unmixed name of any length, with a counterexample for mixed names = known finding "
+        "C11-augment-diminish-mixed-name. Container levels: nc_lifts / bar_lifts / track_lifts for containers of ANY size - the "
+        "operation is applied to every note; rests, values, beats, meter and key are untouched. Tie A: source of the octave "
+        "fix-up and of the per-note loops; Tie B: names x octaves 0..8 x 35 shorthands x 2, random containers/bars/tracks with "
+        "histories of up to 6 transposition/augment/diminish steps.",
+   note=TRUST + "Exactness is claimed for names with at most four accidentals (beyond that the constructors' > 6 re-spelling moves "
+        "octaves: outside the property's stated domain). Known finding C11-augment-diminish-mixed-name listed with a matcher.",
+   design="§4 C11"),
  "C04": dict(
    text="Whole-table kernel evaluation (decide +kernel) of everything the statement says about each of the 30 keys, the 15 "
         "relative couples, the key objects and signature<->key inversion; unbounded theorems for rejections (any string, any "
